@@ -12,11 +12,20 @@ import (
 // SubscriptionService implements the Subscription Service Set.
 //
 // https://reference.opcfoundation.org/Core/Part4/v105/docs/5.13
+// minPublishingInterval is the smallest publishing interval (in ms) requests are revised to.
+const minPublishingInterval = 1.0
+
+// maxPublishingInterval is the largest one (24h).
+const maxPublishingInterval = 24 * 60 * 60 * 1000.0
+
 type SubscriptionService struct {
 	srv *Server
 	// pub sub stuff
 	Mu   sync.Mutex
 	Subs map[uint32]*Subscription
+
+	// lastSubID is the id given to the most recently created subscription.
+	lastSubID uint32
 }
 
 // get rid of all references to a subscription and all monitored items that are pointed at this subscription.
@@ -55,7 +64,13 @@ func (s *SubscriptionService) CreateSubscription(sc *uasc.SecureChannel, r ua.Re
 	s.Mu.Lock()
 	defer s.Mu.Unlock()
 
-	newsubid := uint32(len(s.Subs)) + 1
+	// len(s.Subs)+1 collides with a live subscription as soon as one with a
+	// lower id has been deleted: hand out increasing ids that are not in use.
+	s.lastSubID++
+	for s.lastSubID == 0 || s.Subs[s.lastSubID] != nil {
+		s.lastSubID++
+	}
+	newsubid := s.lastSubID
 
 	if s.srv.cfg.logger != nil {
 		s.srv.cfg.logger.Info("New Sub %d for %v", newsubid, sc.RemoteAddr())
@@ -67,6 +82,14 @@ func (s *SubscriptionService) CreateSubscription(sc *uasc.SecureChannel, r ua.Re
 	sub.Channel = sc
 	sub.ID = newsubid
 	sub.RevisedPublishingInterval = req.RequestedPublishingInterval
+	// time.NewTicker panics for a non-positive interval (0, negative, NaN)
+	if !(sub.RevisedPublishingInterval >= minPublishingInterval) {
+		sub.RevisedPublishingInterval = minPublishingInterval
+	}
+	// ... and so does an interval that overflows time.Duration
+	if sub.RevisedPublishingInterval > maxPublishingInterval {
+		sub.RevisedPublishingInterval = maxPublishingInterval
+	}
 	sub.RevisedLifetimeCount = req.RequestedLifetimeCount
 	sub.RevisedMaxKeepAliveCount = req.RequestedMaxKeepAliveCount
 
@@ -84,7 +107,7 @@ func (s *SubscriptionService) CreateSubscription(sc *uasc.SecureChannel, r ua.Re
 			AdditionalHeader:   ua.NewExtensionObject(nil),
 		},
 		SubscriptionID:            uint32(newsubid),
-		RevisedPublishingInterval: req.RequestedPublishingInterval,
+		RevisedPublishingInterval: sub.RevisedPublishingInterval,
 		RevisedLifetimeCount:      req.RequestedLifetimeCount,
 		RevisedMaxKeepAliveCount:  req.RequestedMaxKeepAliveCount,
 	}
